@@ -265,5 +265,18 @@ size_t strlcpy(char *dst, const char *src, size_t size);
 // as CURL_MAX_HTTP_HEADER
 #define HTP_MAX_HEADER_FOLDED 102400
 
+#ifdef HTP_VERIF
+/* Verification trace points: off unless a harness installs a sink. */
+typedef void (*htp_verif_sink_t)(htp_connp_t *connp, const htp_tx_t *tx, const char *kind, const char *id, int dir, int rc);
+extern htp_verif_sink_t htp_verif_sink;
+#define HTP_VERIF_EV(connp, tx, kind, id, dir, rc) \
+    do { if (htp_verif_sink != NULL) htp_verif_sink((connp), (tx), (kind), (id), (dir), (rc)); } while (0)
+#else
+#define HTP_VERIF_EV(connp, tx, kind, id, dir, rc) do { } while (0)
+#endif
+#define HTP_VERIF_STEP_BEGIN(connp, dir)        HTP_VERIF_EV((connp), NULL, "SB", NULL, (dir), 0)
+#define HTP_VERIF_STEP_END(connp, dir, rc)      HTP_VERIF_EV((connp), NULL, "SE", NULL, (dir), (rc))
+#define HTP_VERIF_TP(connp, tx, id)             HTP_VERIF_EV((connp), (tx), "TP", (id), 0, 0)
+
 #endif	/* _HTP_PRIVATE_H */
 
